@@ -17,7 +17,8 @@ ROUNDED = ("JACCARD", "COSINE", "DICE")
 
 
 def is_missing(v):
-    return v is None or (isinstance(v, float) and v != v)
+    # None, NaN, and pd.NA (what a nullable string column hands back for a missing value)
+    return v is None or (isinstance(v, float) and v != v) or type(v).__name__ == "NAType"
 
 
 class Tok(object):
